@@ -19,6 +19,7 @@ package cty
 //@   ensures nomark: (=> (not (is_marked val)) (= result 0))
 //@   ensures[C04,C20] copy: (=> (is_marked val) (= (MapC<Any~Unit>.dom (select $H<MapC<Any~Unit>> result)) (marks_of val)))
 //@   ensures card: (=> (is_marked val) (= (MapC<Any~Unit>.card (select $H<MapC<Any~Unit>> result)) (MapC<Any~Unit>.card (select F.MapC<Any~Unit> (marks_ptr val)))))
+//@   ensures[C04] okmap: (=> (is_marked val) (MapC<Any~Unit>.ok (select $H<MapC<Any~Unit>> result)))
 //@   loop 1 invariant (forall ((k Any)) (= (select (MapC<Any~Unit>.dom (select $H<MapC<Any~Unit>> ret)) k) (select $visited k)))
 //@   loop 1 invariant (MapC<Any~Unit>.ok (select $H<MapC<Any~Unit>> ret))
 //
@@ -28,7 +29,7 @@ package cty
 //@   fresh result.1 when (is_marked val)
 //@   ensures[C04] r0: (= result.0 (unmark val))
 //@   ensures[C04] nomark: (=> (not (is_marked val)) (and (= result.0 val) (= result.1 0)))
-//@   ensures[C04] marks: (=> (is_marked val) (= (MapC<Any~Unit>.dom (select $H<MapC<Any~Unit>> result.1)) (marks_of val)))
+//@   ensures[C04] marks: (=> (is_marked val) (and (MapC<Any~Unit>.ok (select $H<MapC<Any~Unit>> result.1)) (= (MapC<Any~Unit>.dom (select $H<MapC<Any~Unit>> result.1)) (marks_of val))))
 //
 //@ func (cty.Value).unmarkForce
 //@   tags C04
@@ -54,7 +55,7 @@ package cty
 //@   ensures[C04] none: (=> (= (Slice.len marks) 0) (= result val))
 //@   ensures[C04] empty: (=> (and (not (is_marked val)) (marksets_empty marks (Slice.len marks))) (= result val))
 //@   ensures[C04] payload: (and (= (cty.Value.ty result) (cty.Value.ty val)) (= (inner_v result) (inner_v val)))
-//@   ensures[C04] union: (forall ((k Any)) (= (select (marks_of result) k) (or (select (marks_of val) k) (in_any_markset marks (Slice.len marks) k))))
+//@   ensures[C04] union: (forall ((k Any)) (! (= (select (marks_of result) k) (or (select (marks_of val) k) (in_any_markset marks (Slice.len marks) k))) :pattern ((select (marks_of result) k))))
 //@   ensures[C04,C06] wf: (wf_marks result)
 //@   ensures[C20] ownmarks: (or (= result val) (< (marks_ptr result) 0))
 //@   loop 1 invariant (and (<= 0 markCount) (<= markCount (* (+ $i 1) 1099511627776)))
@@ -72,7 +73,7 @@ package cty
 //@   requires (wf_marks val)
 //@   panics ((_ is box<cty.ValueMarks>) mark)
 //@   ensures[C04] payload: (and (= (cty.Value.ty result) (cty.Value.ty val)) (= (inner_v result) (inner_v val)))
-//@   ensures[C04] marks: (forall ((k Any)) (= (select (marks_of result) k) (or (select (marks_of val) k) (= k mark))))
+//@   ensures[C04] marks: (forall ((k Any)) (! (= (select (marks_of result) k) (or (select (marks_of val) k) (= k mark))) :pattern ((select (marks_of result) k))))
 //@   ensures[C04,C06] wf: (wf_marks result)
 //@   ensures[C20] ownmarks: (< (marks_ptr result) 0)
 //@   loop 1 invariant (forall ((k Any)) (= (select (MapC<Any~Unit>.dom (select $H<MapC<Any~Unit>> (cty.marker.marks newMarker))) k) (select $visited k)))
@@ -98,7 +99,7 @@ package cty
 //@   ensures[C04] none: (=> (= (Slice.len srcs) 0) (= result val))
 //@   ensures[C04] empty: (=> (and (not (is_marked val)) (vals_unmarked srcs (Slice.len srcs))) (= result val))
 //@   ensures[C04] payload: (and (= (cty.Value.ty result) (cty.Value.ty val)) (= (inner_v result) (inner_v val)))
-//@   ensures[C04] union: (forall ((k Any)) (= (select (marks_of result) k) (or (select (marks_of val) k) (in_any_valmarks srcs (Slice.len srcs) k))))
+//@   ensures[C04] union: (forall ((k Any)) (! (= (select (marks_of result) k) (or (select (marks_of val) k) (in_any_valmarks srcs (Slice.len srcs) k))) :pattern ((select (marks_of result) k))))
 //@   ensures[C04,C06] wf: (wf_marks result)
 //@   ensures[C20] ownmarks: (or (= result val) (< (marks_ptr result) 0))
 //@   loop 1 invariant (and (<= 0 markCount) (<= markCount (* (+ $i 1) 1099511627776)))
